@@ -5,7 +5,7 @@
    the pawn / king / castling blocks, is_capture = the rules' capture relation and the attack queries = the rules'
    attack relation are decided by the correspondence run against spec/Rules.v. *)
 From Coq Require Import NArith ZArith List Bool.
-From Rawr Require Import Consts Bits Magic Position MoveGen MakeMove NotationFacts.
+From Rawr Require Import Consts Bits Magic Position MoveGen MakeMove MakeStages Rules Abs NotationFacts KeyAbs AttackFacts AttackAbs.
 Import ListNotations.
 Local Open Scope N_scope.
 
@@ -24,7 +24,23 @@ Theorem C08_legal_captures_is_filter : forall p,
       is_set (c_them p) to || ((piece =? PAWN) && match ep p with Some e => to =? e | None => false end)) (move_generator p)).
 Proof. exact legal_captures_is_filter. Qed.
 
+(* is_sq_attacked = Rules.attacked on the abstract board (spec_attacked maps the relative square and the side to the
+   absolute square and colour) *)
+Theorem C08_attack_query_is_the_rules : forall p sq us,
+  WF p -> BBp p -> sq < 64 -> popcount (N.land (kings p) (get_side p us)) = 1 ->
+  is_sq_attacked p sq us = spec_attacked p sq us.
+Proof. exact attack_query_is_the_rules. Qed.
+
+Theorem C08_attack_query_premises : forall p, attack_pre_b p = true ->
+  forall sq us, sq < 64 -> is_sq_attacked p sq us = spec_attacked p sq us.
+Proof. exact attack_query_premises. Qed.
+
+Example C08_attack_example : attack_pre_b startpos = true /\ attack_pre_b (makenull startpos) = true.
+Proof. split; vm_compute; reflexivity. Qed.
+
 Print Assumptions C08_popcount_length_bits.
+Print Assumptions C08_attack_query_is_the_rules.
+Print Assumptions C08_attack_query_premises.
 Print Assumptions C08_count_sliders_eq.
 Print Assumptions C08_perft_unfold.
 Print Assumptions C08_perft_one.
